@@ -137,9 +137,27 @@ pub fn scenarios() -> Vec<Scn> {
     ("on_error_resume_next", Arc::new(|o| o.on_error_resume_next(|_| observables::just(9)))),
     ("tap", Arc::new(|o| o.tap(|_| {}, |_| {}, || {}))),
     ("delay(0)", Arc::new(|o| o.delay(ms(0)))),
+    // the aggregates and the remaining operators with state of their own (two locks taken in opposite
+    // orders by the item path and the terminal path is the classic: seed C07-j)
+    ("sum", Arc::new(|o| o.sum())),
+    ("min", Arc::new(|o| o.min())),
+    ("max", Arc::new(|o| o.max())),
+    ("count", Arc::new(|o| o.count().map(|n| n as i64))),
+    ("sum_and_count", Arc::new(|o| o.sum_and_count().map(|(s, n)| s * 100 + n as i64))),
+    ("last", Arc::new(|o| o.last())),
+    ("first", Arc::new(|o| o.first())),
+    ("element_at(2)", Arc::new(|o| o.element_at(2))),
+    ("skip_while", Arc::new(|o| o.skip_while(|x| x < 2))),
+    ("take_while", Arc::new(|o| o.take_while(|x| x < 3))),
+    ("contains", Arc::new(|o| o.contains(3).map(|b| b as i64))),
+    ("all", Arc::new(|o| o.all(|x| x < 3).map(|b| b as i64))),
+    ("start_with", Arc::new(|o| o.start_with([7i64].into_iter()))),
+    ("materialize.dematerialize", Arc::new(|o| o.materialize().dematerialize())),
+    ("time_interval", Arc::new(|o| o.time_interval().map(|_| 0i64))),
+    ("ignore_elements", Arc::new(|o| o.ignore_elements())),
   ];
   for (name, b) in singles {
-    let core = matches!(name, "take(2)" | "scan" | "window_with_count(2)" | "group_by");
+    let core = matches!(name, "take(2)" | "scan" | "window_with_count(2)" | "group_by" | "sum" | "min" | "max" | "count" | "sum_and_count" | "last" | "reduce" | "take_last(1)" | "skip_last(1)" | "buffer_with_count(2)" | "distinct_until_changed" | "default_if_empty");
     v.push(conc_scn(&format!("c07/Subject.{} P_A(1,2) || P_B(3,C) || unsubscribe", name), if core { Some(2) } else { Some(1) }, Some(if core { 3 } else { 2 }), move |rec| {
       let sbj = subjects::Subject::<i64>::new();
       let sub = rec.sub_i64(&b(sbj.observable()));
